@@ -96,7 +96,7 @@ class Checker:
             elif t == "restart":
                 self._quantum(quantum, None)
                 quantum = []
-                self._restart()
+                self._restart(ev)
             else:
                 quantum.append(ev)
         if quantum:
@@ -116,8 +116,13 @@ class Checker:
             if j.done and not j.deadline:
                 j.deadline = now + j.ttl
 
-    def _restart(self):
+    def _restart(self, ev):
         self.obs["restarts"] += 1
+        if ev.get("downtime"):
+            # time passed while the server was down; timeouts are acted on at the next tick
+            self.obs["restarts_with_downtime"] = self.obs.get("restarts_with_downtime", 0) + 1
+            if self.now is not None:
+                self.now += ev["downtime"]
         # outcome counters are not part of the saved state and C18 does not promise them
         self.stats = {}
         self.finished_total = {}
@@ -166,6 +171,9 @@ class Checker:
                 self._shutdown(ev["conn"])
             elif t == "tick":
                 self._tick(ev)
+            elif t == "advance":
+                if self.now is not None:
+                    self.now += ev["dt"]
             elif t == "stray-response":
                 self.flag("C16", "stray-response", "connection %s got a response without a request" % ev["conn"])
         # a connection that got EOF is gone by the quiescent point whether or not the server ran its
